@@ -1901,7 +1901,6 @@ func ruleDecodersRefuseOnlyTheUnrepresentable(c *Check, p *Prog, rule string) {
 	c.MinInstances(rule, 6)
 }
 
-
 // predicatesOnly: expansion options that look into the package's own boolean predicates (a guard
 // moved into a named function) and nothing else.
 func predicatesOnly(pkgPath string) ExpandOpts {
